@@ -90,10 +90,14 @@ def prod(
         out = _prod(a, axis=axis)
 
     else:
-        for idx in axis:
+        axes = [idx + a.ndim if idx < 0 else idx for idx in axis]
+        for idx in axes:
             a = _prod(a, axis=idx)
             a = a[(slice(None),) * idx + (numpy.newaxis,)]
         out = a
+        if not keepdims:
+            shape = [dim for idx, dim in enumerate(a.shape) if idx not in axes]
+            out = numpoly.reshape(a, shape)
 
     return out
 
